@@ -240,6 +240,13 @@ class Folder:
             raise Unsupported(f"fold: top-level code did not bind `{name}`")
         return self.globals[name]
 
+    def _global_store(self, name, v, node):
+        """assignment to a module-level name from inside a function (`global name`): the module-level statements that bind the name run
+        first (its initial value), then the name holds v for every later read"""
+        if name not in self.globals and self._toplevel().get(name) and name not in self._busy:
+            self._global(name, node)
+        self.globals[name] = v
+
     # ------------------------------------------------------------------------------------------------------------- interface
     def call(self, fname, *args, **kw):
         """the value the module function `fname` returns for the given literal arguments (FoldRaise if it raises)"""
@@ -365,7 +372,14 @@ class Folder:
                 else:
                     raise Unsupported("fold: del " + ast.unparse(t))
         elif isinstance(st, (ast.Global, ast.Nonlocal)):
-            raise Unsupported("fold: global / nonlocal")
+            # the names are bound in the module frame / the nearest enclosing function frame from here on (a lazily filled module-level cache)
+            if loc is self.globals:
+                return
+            key = "<global>" if isinstance(st, ast.Global) else "<nonlocal>"
+            loc[key] = set(loc.get(key, ())) | set(st.names)
+            for nm in st.names:
+                if nm in loc:
+                    raise Unsupported(f"fold: `{nm}` is assigned before its global / nonlocal declaration")
         else:
             raise Unsupported(f"fold: statement {type(st).__name__} ({self.rel}:{st.lineno})")
 
@@ -401,7 +415,16 @@ class Folder:
 
     def _store(self, target, v, frames):
         if isinstance(target, ast.Name):
-            frames[-1][target.id] = v
+            loc = frames[-1]
+            if target.id in loc.get("<global>", ()):
+                self._global_store(target.id, v, target)
+            elif target.id in loc.get("<nonlocal>", ()):
+                fr = next((f for f in reversed(frames[:-1]) if target.id in f and f is not self.globals), None)
+                if fr is None:
+                    raise Unsupported(f"fold: nonlocal `{target.id}` not found in an enclosing function")
+                fr[target.id] = v
+            else:
+                loc[target.id] = v
         elif isinstance(target, (ast.Tuple, ast.List)):
             if any(isinstance(t, ast.Starred) for t in target.elts):
                 raise Unsupported("fold: starred assignment target")
